@@ -185,7 +185,7 @@ func verifCanary(label string, cond bool) {}
 //@   ensures [C32:typed] err == nil ==> typeis(r, *ua.CreateMonitoredItemsRequest) && typeis(result0, *ua.CreateMonitoredItemsResponse)
 //@   loop 0 invariant -1 <= rangeindex && rangeindex < len(req.ItemsToCreate) && len(res) == len(req.ItemsToCreate)
 //@   loop 0 invariant itemIDsInv(s) && s.id >= old(s.id) && int(s.id) == int(old(s.id)) + rangeindex + 1
-//@   loop 0 invariant [C32:fresh-item-ids] forall k int :: { res[k] } 0 <= k && k <= rangeindex ==> res[k] != nil &&
+//@   loop 0 invariant [C32:fresh-item-ids] forall k int :: { res[k] } 0 <= k && k <= rangeindex ==> res[k] != nil && alive(res[k]) &&
 //@           res[k].MonitoredItemID == old(s.id) + uint32(k) + 1
 //@   loop 0 decreases len(req.ItemsToCreate) - rangeindex
 
